@@ -48,7 +48,13 @@ def ensure_numpy():
 
 def plan(tier, seed):
     np_ok = ensure_numpy()
-    return [{"tier": tier, "seed": seed, "shard": i, "numpy": np_ok} for i in range(SHARDS[tier])]
+    # reference outcomes: one fresh interpreter per pool value, computed once and handed to every shard
+    n = int(subprocess.run([sys.executable, "-c", "from vf import boot; boot.boot(numpy=%r); from vf import c19pool; "
+                            "print(len(c19pool.make_pool()))" % np_ok], cwd=VERIF_ROOT, capture_output=True, text=True,
+                           env=dict(os.environ, PYTHONPATH=VERIF_ROOT, VERIF_REPO=REPO), timeout=120).stdout.strip())
+    with ThreadPoolExecutor(max_workers=16) as ex:
+        refs = list(ex.map(lambda i: _reference(i, np_ok), range(n)))
+    return [{"tier": tier, "seed": seed, "shard": i, "numpy": np_ok, "refs": refs} for i in range(SHARDS[tier])]
 
 
 def _reference(idx, numpy):
@@ -68,8 +74,9 @@ def run_shard(spec):
 
     pool = c19pool.make_pool()
     out = {"evaluations": 0, "keys": [], "violations": [], "samples": [], "counters": {}, "strata": {}}
-    with ThreadPoolExecutor(max_workers=3) as ex:
-        refs = list(ex.map(lambda i: _reference(i, spec["numpy"]), range(len(pool))))
+    refs = spec["refs"]
+    if len(refs) != len(pool) or [r["name"] for r in refs] != [n for n, _ in pool]:
+        raise RuntimeError("reference outcomes do not match the pool")
     ref = {r["name"]: r["outcomes"] for r in refs}
     out["counters"]["reference_interpreters"] = len(refs) if spec["shard"] == 0 else 0
     out["counters"]["pool_values"] = len(pool) if spec["shard"] == 0 else 0
